@@ -1,6 +1,6 @@
 /-
 Driver requests for the graph families of C02 (second half):
-  g2_iso       <cls> <G1> <G2>
+  g2_iso       <cls> <nontrivial> <G1> <G2>
   g2_auto      <cls> <G>
   g2_subgraph  <cls> <induced> <symbreak> <G> <H>
   g2_clique    <cls> <k> <symbreak> <G>
@@ -20,8 +20,8 @@ def out (cls : Int) (r : Except Err Formula) : String := fmtExcept (fmtFormula c
 def handle (opname : String) (a : Args) : Option String :=
   match opname with
   | "g2_iso" => run (do
-      let cls ← int; let g1 ← simpleG; let g2 ← simpleG
-      pure (out cls (do let G1 ← g1; let G2 ← g2; pure (graphIsomorphism G1 G2)))) a
+      let cls ← int; let nontrivial ← bool; let g1 ← simpleG; let g2 ← simpleG
+      pure (out cls (do let G1 ← g1; let G2 ← g2; pure (graphIsomorphismOpt G1 G2 nontrivial)))) a
   | "g2_auto" => run (do
       let cls ← int; let g ← simpleG
       pure (out cls (do let G ← g; pure (graphAutomorphism G)))) a
